@@ -353,6 +353,9 @@ func c06r5(r *R) {
 		kerb := p.holds("($0.kerberosAdapter != nil)") && p.holds("invoke forwarder.KerberosAdapter.GetConfig($0.kerberosAdapter).AuthUpstreamProxy")
 		user, set := p.Mem[u+".User"]
 		copied := p.Mem[u] == "$0.config.UpstreamProxy"
+		if set && user == "$0.config.UpstreamProxy.User" {
+			set = false // the copy still holds the configured URL's own userinfo: not assigned
+		}
 		if !copied {
 			r.bad(key, p.pos(), "does not start from a copy of the configured proxy URL")
 			continue
@@ -361,7 +364,7 @@ func c06r5(r *R) {
 		switch {
 		case kerb:
 			r.check(set && user == "nil", key, p.pos(), "Kerberos upstream auth: userinfo cleared", "Kerberos upstream authentication must clear the proxy credentials")
-		case p.holds("(" + u + ".User == nil)"):
+		case p.holds("("+u+".User == nil)") || p.holds("($0.config.UpstreamProxy.User == nil)"): // the copy's field, tested before anything assigned it
 			matched := p.holds("(" + m + u + ") != nil)")
 			r.check(matched == (set && user == m+u+")"), key, p.pos(), "URL has no userinfo: table consulted, entry used when present", fmt.Sprintf("no userinfo in the URL: matched=%v but User=%q", matched, user))
 		default:
